@@ -614,7 +614,7 @@ func knownOf(frames []string) any {
 func analyse(res childResult, sites []site, cmdline string, stillUnguarded map[int]bool, ignored *int) []observation {
 	var obs []observation
 	scope := scopeFrames(sites)
-	text := res.stderr
+	text := "\n" + res.stderr // markers below are looked for at line starts, the first line included
 	// race detector reports
 	for _, blk := range strings.Split(text, "==================") {
 		if !strings.Contains(blk, "WARNING: DATA RACE") {
@@ -642,7 +642,7 @@ func analyse(res childResult, sites []site, cmdline string, stillUnguarded map[i
 		obs = append(obs, observation{Kind: "race", Known: k, Index: -1, What: "race detector: data race on a registry map", Frames: frames, Excerpt: trunc(blk, 1500), ChildCmd: cmdline})
 	}
 	died := -1
-	for _, marker := range []string{"fatal error:", "\npanic: "} {
+	for _, marker := range []string{"\nfatal error:", "\npanic: "} {
 		if i := strings.Index(text, marker); i >= 0 && (died < 0 || i < died) {
 			died = i
 		}
